@@ -405,7 +405,7 @@ def _label_valued(t, dp, b) -> bool:
     return False
 
 
-@rule("C15", "R5", "PURE", "kernels read no mutable module-level state (Numba freezes globals at compile time)", floor=3)
+@rule("C15", "R5", "PURE", "kernels read no mutable module-level state (Numba freezes globals at compile time)", floor=3, evidence=True)
 def r5(ctx):
     ana = ctx.ana
     for fi, d in njit_kernels(ana):
